@@ -24,9 +24,9 @@ def cli(build, script):
     for mode in ("file", "repl"):
         try:
             if mode == "file":
-                p = subprocess.run([exe, script], capture_output=True, text=True, timeout=600, cwd=os.path.dirname(script))
+                p = subprocess.run([exe, script], capture_output=True, text=True, timeout=int(os.environ.get("CONFIRM_TIMEOUT", "60")), cwd=os.path.dirname(script))
             else:
-                p = subprocess.run([exe], stdin=open(script), capture_output=True, text=True, timeout=600, cwd=os.path.dirname(script))
+                p = subprocess.run([exe], stdin=open(script), capture_output=True, text=True, timeout=int(os.environ.get("CONFIRM_TIMEOUT", "60")), cwd=os.path.dirname(script))
             out[mode] = {"rc": p.returncode, "stdout": p.stdout[-4000:], "stderr": p.stderr[-2000:]}
         except subprocess.TimeoutExpired:
             out[mode] = {"rc": "timeout", "stdout": "", "stderr": ""}
